@@ -324,11 +324,11 @@ ADDED6 = {
 }
 
 ADDED7 = {
-    'C02': ' D1 also: the byte-emission loop of asm_all_candidate is evaluated from its source on 6 displacement kinds x 8 immediate lists x 2 operand-size modes: prefix + opcode + every value little-endian in the width and signedness of its checked size, back to back, symbol offsets at the values. D2: check_imm_size is evaluated on 6 size tokens x 20 boundary values (refused exactly outside the range, returned in the class of that width); D3: the 16/32-bit vote is decided by interpreting asm_candidates up to the decision (helper methods followed).',
+    'C02': ' D1 also: the byte-emission loop of asm_all_candidate is evaluated from its source on 6 displacement kinds x 8 immediate lists x 2 operand-size modes: prefix + opcode + every value little-endian in the width and signedness of its checked size, back to back, symbol offsets at the values. D2: check_imm_size is evaluated on 6 size tokens x 20 boundary values (refused exactly outside the range, returned in the class of that width); D3: the 16/32-bit vote is decided by interpreting asm_candidates up to the decision (helper methods followed). D15: the direct-offset rows (A0-A3) accept an absolute address only (accepting branch evaluated on register coefficients 1, 2, 3, 4, 5, 8, 9).',
     'C03': ' D13: the segment override of a memory operand stands in front of the mandatory prefix of an MMX/SSE opcode in the prefixes asm_candidates collects (interpreted up to the operand-size decision on 36 lines). D2 / D3 follow the helpers asm_candidates calls; the segm handling and the movlps / movhlps renaming are evaluated, not matched.',
-    'C04': ' D19: an assignment to a part of a register keeps the other bits and puts every bit of the value at its place, whatever the kind of the value (ExprAff.__init__ evaluated on slice destinations x value kinds - opaque value, slice, concatenations of 2 / 8 pieces, nested - and compared bit by bit; shared with C11.D5).',
+    'C04': ' D19: an assignment to a part of a register keeps the other bits and puts every bit of the value at its place, whatever the kind of the value (ExprAff.__init__ evaluated on slice destinations x value kinds - opaque value, slice, concatenations of 2 / 8 pieces, nested - and compared bit by bit; shared with C11.D5). D20: cbw / cwde / cwd / cdq lifted under their operand size and evaluated on boundary accumulators.',
     'C06': ' D14: every address looked up in the table of stored cells is simplified on every assignment that reaches the lookup (shared with C07.D15). D15: eval_ExprOp interpreted as a whole on constant operands (654 operations): a shift / rotate whose count or carry has another width than the value gives a constant of the value\'s width equal to the operator\'s evaluator; every interpreted operator on operands of one width gives that width.',
-    'C07': ' D15: every address looked up in the table of stored cells (`X in pool_mem`, `pool_mem[X]`, X handed to a lookup method) is simplified on every reaching assignment, loop-carried ones included.',
+    'C07': ' D15: every address looked up in the table of stored cells (`X in pool_mem`, `pool_mem[X]`, X handed to a lookup method) is simplified on every reaching assignment, loop-carried ones included. D16: every binding of the list of overlapped cells a store subtracts from is get_mem_overlapping(store), or [] under an equality of the widths.',
     'C09': ' D15: both renderings determine the immediate (x86_mn.__str__ interpreted on every decoder form with an immediate; shared with C01.D13).',
     'C10': ' D1: a raise of get_afs is dead only if get_afs, evaluated on every (ModRM, SIB) pair of the four tables init_pre_modrm builds (evaluated statically), returns an operand.',
     'C11': ' D5 compares the rewritten source bit by bit (bit provenance) for opaque, sliced, concatenated and nested values: a re-implementation that splices pieces at the right offsets is accepted, one that drops the offset is reported.',
